@@ -187,12 +187,12 @@ func c08Eval(c core.Case) (res core.Result) {
 		res.Tags = append(res.Tags, "skipped_upstream_panic")
 		return
 	}
+	var rd *sqlref.Read
 	if err != nil {
-		res.Tags = append(res.Tags, "skipped_render_error")
-		return
-	}
-	rd, err := sqlref.ReadFilter(sql)
-	if err != nil {
+		// the alphabet holds no NUL and no invalid UTF-8, so there is nothing PostgreSQL could not
+		// take as a constant: a refusal means the value is not delivered
+		add("sql", cls+" render-error", fmt.Sprintf("ToPostgres(%q): %v", text, err), fmt.Sprintf("SQL with a string constant equal to %q", w))
+	} else if rd, err = sqlref.ReadFilter(sql); err != nil {
 		res.Tags = append(res.Tags, "skipped_upstream_unconfined")
 	} else {
 		found := false
